@@ -789,6 +789,10 @@ func checkXML(c XMLCase) hx.Verdict {
 	if enc.Err != "" {
 		return hx.Bad("", "XML encode failed (%s): %s", enc.Err, truth.JSON())
 	}
+	// an XML declaration is the first thing in the document (XML 1.0, 2.8: nothing, not even white space, before it)
+	if i := strings.Index(enc.Out, "<?xml "); i > 0 {
+		return hx.Bad("", "XML output has %q before the XML declaration: %q", enc.Out[:i], enc.Out)
+	}
 	back, err := parseXTree(enc.Out)
 	if err != nil {
 		return hx.Bad("", "XML output is not well-formed (%v): %q from %s", err, enc.Out, truth.JSON())
